@@ -256,5 +256,5 @@ theorem tie_DriverSendTo (fuel : Nat) (s : TQ) (a : TAns) (hd : s.destroyed = fa
 EVERY world, `SendTo` does what `Send` does - lock, read `q.empty()`, `emplace`, unlock, arm iff the queue was empty -/
 theorem tie_AsyncSendTo {ω : Type} (W : Gen.QueueWorld ω) (fuel : Nat) : Gen.AsyncSendTo W fuel = Gen.AsyncSend W fuel := by
   funext w
-  simp only [Gen.AsyncSendTo, Gen.AsyncSend, Gen.DoSend_Udp, Gen.DoSend_Tcp, Gen.DoSendEnqueue_Udp, Gen.DoSendEnqueue_Tcp]
+  simp only [Gen.AsyncSendTo, Gen.AsyncSend]
 end SockModel.Props.C09
